@@ -1132,7 +1132,7 @@ decl(struct scope *s, struct func *f)
 				assert(funcscope);
 				s = funcscope;
 				f = mkfunc(d, name, t, s);
-				stmt(f, s);
+				funcbody(f, s);
 				if (d->u.func.isnoreturn)
 					funchlt(f);
 				/* XXX: need to keep track of function in case a later declaration specifies extern */
